@@ -114,6 +114,23 @@ def generate(src):
         raise RuntimeError("templ/scanner.py: SPLIT_PATTERN changed")
     if "split_rx = re.compile(SPLIT_PATTERN, re.VERBOSE | re.DOTALL | re.IGNORECASE)" not in ttxt:
         raise RuntimeError("templ/scanner.py: split_rx flags changed")
+    # --- decoding of nowiki / pre bodies (coq/C09/EntModel.v): which pattern replace_html_entities uses, who calls it
+    import ast
+    upath = os.path.join(src, "mwlib/parser/refine/util.py")
+    funcs = {n.name: n for n in ast.parse(open(upath, encoding="utf8").read()).body if isinstance(n, ast.FunctionDef)}
+    if "replace_html_entities" not in funcs:
+        raise RuntimeError("util.py: replace_html_entities not found")
+    body = ast.unparse(funcs["replace_html_entities"].body)
+    ent_patterns = {"return re.sub('&[^;]*;', lambda mo: resolve_entity(mo.group(0)), txt)": False,
+                    "return re.sub('&(?:#[0-9]+|#[xX][0-9a-fA-F]+|[a-zA-Z0-9]+);', lambda mo: resolve_entity(mo.group(0)), txt)": True}
+    if body not in ent_patterns:
+        raise RuntimeError("util.replace_html_entities no longer has a transcribed shape: %r" % body)
+    ent_strict = ent_patterns[body]
+    ctxt = open(os.path.join(src, "mwlib/parser/refine/core.py"), encoding="utf8").read()
+    for lit in ("        txt = inner\n        txt = util.replace_html_entities(txt)\n        return Token(type=Token.t_text, text=txt)",
+                "        inner = util.replace_html_entities(util.remove_nowiki_tags(inner))"):
+        if lit not in ctxt:
+            raise RuntimeError("refine/core.py: create_nowiki / create_pre no longer decode as transcribed (%r)" % lit[:60])
     # --- tables of the running CPython
     allc = [chr(c) for c in range(0x110000)]
     ws_rx, nd_rx = re.compile(r"\s"), re.compile(r"\d")
@@ -160,6 +177,8 @@ def generate(src):
          "(* _sre.unicode_tolower on the non-ASCII code points whose image is an image of a foldable one *)",
          "Definition sre_lower_extra : list (N * N) := " + pairs(sre_lower) + ".",
          "(* str.lower() on the non-ASCII foldable code points *)",
-         "Definition py_lower_extra : list (N * list N) := [" + "; ".join("(%d, %s)" % (c, nlist(l)) for c, l in py_lower) + "].", ""]
+         "Definition py_lower_extra : list (N * list N) := [" + "; ".join("(%d, %s)" % (c, nlist(l)) for c, l in py_lower) + "].", "",
+         "(* util.replace_html_entities: false = re.sub('&[^;]*;', ..), true = the strict pattern of the scanner's entity rule *)",
+         "Definition ent_strict : bool := %s." % ("true" if ent_strict else "false"), ""]
     core.write_if_changed(os.path.join(core.COQ, "C09", "Gen_tables.v"), "\n".join(v))
-    return {"names": names, "ws": ws, "nd": nd, "fold": fold, "ascii_fold": name_wrap != "%s"}
+    return {"names": names, "ws": ws, "nd": nd, "fold": fold, "ascii_fold": name_wrap != "%s", "ent_strict": ent_strict}
